@@ -802,10 +802,11 @@ def expand_under(w: 'GuardWalk', e: ast.AST, atom_truth, depth: int = 8) -> ast.
                     base = Sub(self.d - 1, self.bound).visit(_copy.deepcopy(val))
                     if isinstance(base, (ast.Tuple, ast.List)) and i < len(base.elts):
                         return base.elts[i]
+                    return ast.Subscript(base, ast.Constant(i), ast.Load())
                 return n
             live = [d for d in ds if truth_under(strip_iter(d[3]), atom_truth) is True]
             maybe = [d for d in ds if truth_under(strip_iter(d[3]), atom_truth) is None]
             if maybe or not live:
                 return n
             return Sub(self.d - 1, self.bound).visit(_copy.deepcopy(live[-1][1]))
-    return Sub(depth).visit(_copy.deepcopy(e))
+    return canon_yx(ast.fix_missing_locations(Sub(depth).visit(_copy.deepcopy(e))))
